@@ -43,8 +43,15 @@ static void congest(void) {
 	uint8_t on = 1; sb_send(1, MSG_STALL, &on, 1); vs_point(); hx_quiesce();
 	bidib_flush(); hx_quiesce();
 }
+/* backlog state: the interface has announced a large packet capacity and more than 64 bytes wait unflushed in the send buffer
+ * when the call under test starts (paths that flush or re-size the buffer while it is in use) */
+static int g_backlog;
+static void make_backlog(void) {
+	uint8_t cap = 200; sb_send(0, MSG_PKT_CAPACITY, &cap, 1); vs_point(); hx_quiesce();
+	t_bidib_node_address q = {5, 0, 0}; for (int i = 0; i < 12; i++) bidib_send_sys_clock(q, (uint8_t) i, 0x80, 0x41, 0xC1, 0);
+}
 static void start_std(int variant) {
-	int lc1_absent = variant & 1, populated = (variant >> 1) & 1, congested = (variant >> 2) & 1;
+	int lc1_absent = variant & 1, populated = (variant >> 1) & 1, congested = (variant >> 2) & 1; g_backlog = (variant >> 3) & 1;
 	cm_std(&M); if (lc1_absent) M.b[2].present = 0; cm_install(&M);
 	if (hx_start_normal(0)) res_infra("normal start failed");
 	hx_quiesce();
@@ -67,6 +74,7 @@ static void cat_child(const void *job, size_t n) {
 		const char *name = entry_name(e);
 		for (int v = 0; v < entry_variants(e); v++) {
 			vs_sleep_us(2500000); hx_quiesce();
+			if (g_backlog) make_backlog();
 			vs_set_label(name); vs_set_thread_label(1, name);
 			res_progress(e);
 			run_entry(e, v); calls++;
@@ -97,9 +105,9 @@ static void cat_res(long idx, const run_res_t *r) {
 				if (k == nGl[x][y] && k < MAXLAB) snprintf(Glabels[x][y][nGl[x][y]++], 72, "%s", label); } } }
 }
 static size_t cat_gen(long idx, uint8_t *payload, char *human, size_t hn) {
-	int per = 6, absent = (int) (idx % 6); int from = (int) (idx / 6) * per, to = from + per; if (absent >= 4) absent = absent == 4 ? 4 : 6;   /* variants: 0..3 = connectivity x populated; 4 = congested; 6 = populated + congested */
+	int per = 6, absent = (int) (idx % 7); int from = (int) (idx / 7) * per, to = from + per; if (absent >= 4) absent = absent == 4 ? 4 : absent == 5 ? 6 : 8;   /* variants: 0..3 = connectivity x populated; 4 = congested; 6 = populated + congested */
 	memcpy(payload, &from, 4); memcpy(payload + 4, &to, 4); payload[8] = (uint8_t) absent;
-	snprintf(human, hn, "catalogue entries %d..%d (%s ...)%s%s%s", from, to - 1, from < N_ENTRIES ? entry_name(from) : "", absent & 1 ? " with board lc1 disconnected" : "", absent & 2 ? " in the populated state (trains on track)" : "", absent & 4 ? " congested (interface budget exhausted, oc1 stalled)" : "");
+	snprintf(human, hn, "catalogue entries %d..%d (%s ...)%s%s%s%s", from, to - 1, from < N_ENTRIES ? entry_name(from) : "", absent & 1 ? " with board lc1 disconnected" : "", absent & 2 ? " in the populated state (trains on track)" : "", absent & 4 ? " congested (interface budget exhausted, oc1 stalled)" : "", absent & 8 ? " with a backlog in the send buffer (capacity 200 announced, 96 bytes unflushed)" : "");
 	return 9;
 }
 /* cycle search (simple DFS, graphs have < 20 nodes) */
@@ -138,7 +146,7 @@ int c11_run(const char *tier) {
 	int thorough = !strcmp(tier, "thorough");
 	nlk = 0; memset(G, 0, sizeof G);
 	long nchunks = (N_ENTRIES + 5) / 6;
-	ex_spec_t e = { .harness = "c11.cat", .ncases = nchunks * 6, .gen = cat_gen, .on_result = cat_res, .label = "c11.cat" };
+	ex_spec_t e = { .harness = "c11.cat", .ncases = nchunks * 7, .gen = cat_gen, .on_result = cat_res, .label = "c11.cat" };
 	ex_map(&e);
 	int nedges = 0; for (int a = 0; a < nlk; a++) for (int b = 0; b < nlk; b++) if (G[a][b]) { nedges++; rep_note("lock order edge %s -> %s (modes %d) first seen in %s", lkname[a], lkname[b], G[a][b], Glabel[a][b]); }
 	nfound = 0; for (int s0 = 0; s0 < nlk; s0++) { cyc[0] = s0; dfs(s0, s0, 0); }
@@ -159,7 +167,7 @@ int c11_run(const char *tier) {
 			int nrecv = 0; for (int i = 0; ok && i < pn; i++) { int en; memcpy(&en, param + 1 + 4 * i, 4); if (en >= N_HL + N_LL) nrecv++; }
 			if (ok && nrecv <= 1 && combos < 36) {
 				param[0] = (uint8_t) pn; combos++;
-				for (int sv = 0; sv <= 6 && !confirmed; sv += 2) {
+				for (int sv = 0; sv <= 8 && !confirmed; sv += 2) {
 					if (rep_elapsed() > rep_deadline_s) break;
 					param[1 + 4 * pn] = (uint8_t) sv; int before = rep_nviol();
 					char label[500]; snprintf(label, sizeof label, "c11.pair cycle %d: %s (state variant %d)", c, lab, sv);
@@ -174,7 +182,7 @@ int c11_run(const char *tier) {
 	}
 	rep_count("executions", e.done + pair_execs); rep_count("states", nedges > 0 ? nedges : 1); rep_count("transitions", rep_get("api_calls")); rep_count("distinct_nontrivial", rep_get("api_calls"));
 	rep_flag("exhaustive", e.exhaustive);
-	rep_note("catalogue: %d entries (%d high-level/util, %d low-level, 384 receiver cases) x 6 variants (2 connectivity x {after start-up, populated: trains on track / segments occupied}, congested: interface budget exhausted and oc1 stalled, populated + congested) = %ld calls; lock-order graph: %d locks, %d edges, %d cycle candidates, %ld explored for confirmation (%ld schedules)",
+	rep_note("catalogue: %d entries (%d high-level/util, %d low-level, 384 receiver cases) x 7 variants (2 connectivity x {after start-up, populated: trains on track / segments occupied}, congested: interface budget exhausted and oc1 stalled, populated + congested, backlog: large capacity announced and 96 bytes unflushed in the send buffer) = %ld calls; lock-order graph: %d locks, %d edges, %d cycle candidates, %ld explored for confirmation (%ld schedules)",
 	         N_ENTRIES, N_HL, N_LL, rep_get("api_calls"), nlk, nedges, nfound, confirmed_runs, pair_execs);
 	return 0;
 }
